@@ -17,8 +17,10 @@ Property theorems only; helper lemmas in `EAO/Lemmas/Merge.lean`.
 * `coarse_weights*` — for any incoming mapping the rows `extendMinor` writes for a coarse row carry
   `(dt_fine/dt_coarse)·f`; per row they sum to `f` and give a constant rate (finding F-13e, accumulation of
   the weights for mappings with a `disp_factor` column, is repaired in the code: `e844f73`).
-* tie of `makePeriodic` to `mergeProblem`: checked at run time on every generated case
-  (`agreesWithGeneric`, driver field `generic`), stated as TARGET below.
+* `makePeriodic_is_merge`, `makePeriodic_equiv` — the literal loop IS the generic merge along its final leader
+  map when the groups form a partition of the variables (the aligned case), hence `merge_columns` applies to
+  what `makePeriodic` returns; without that hypothesis the tie is checked at run time on every generated case
+  (`agreesWithGeneric`, driver field `generic`).
 -/
 namespace EAO.C13
 open EAO EAO.Merge
@@ -88,13 +90,90 @@ example :
   show j % 2 < 4
   omega
 
-/- TARGET (tie of the literal loop to the generic merge; checked at run time by `agreesWithGeneric` on every
-   generated case, not proved):
-   theorem makePeriodic_is_merge (P labels Q) (h : makePeriodic P labels = .ok Q) :
-     let st := mergeAll P labels
-     Q.c = (mergeProblem P (finalLead P labels) st.l st.u).c ∧ Q.l = … ∧ Q.u = … ∧ Q.mapping = … ∧
-     ∀ x, ∀ i, (Q.rows[i]).eval x = ((mergeProblem P (finalLead P labels) st.l st.u).rows[i]).eval x
-   together with idempotence of `finalLead P labels` whenever `makePeriodic` does not answer `chain`. -/
+/-- **C13 `makePeriodic_is_merge`.**  The literal loop of `__make_periodic__` IS the generic merge along its final
+    leader map whenever the groups form a partition of the variables (`Merge.Partition`: two groups that share a
+    variable have the same variables — one group per variable, a transport's two nodes, a coarse asset whose
+    period and duration are multiples of its coarse step).  For a well-formed input (`c` as long as `l`, row
+    columns within the variables): the leader map is idempotent and closed, bounds, mapping, name, nodes are
+    those of `mergeProblem`, costs and rows are the same linear functionals (rows with equal right-hand side and
+    type).  Without the partition hypothesis the statement fails (`periodic_groups_complete_counterexample`);
+    on every generated case the executable `agreesWithGeneric` checks the same tie at run time. -/
+theorem makePeriodic_is_merge (P : AssetProblem) (labels : List (Nat × Nat × Nat)) (Q : AssetProblem)
+    (hlen : P.c.length = P.l.length) (hcols : ∀ r ∈ P.rows, ∀ p ∈ r.coeffs, p.1 < P.l.length)
+    (hpart : Partition P.mapping labels) (h : makePeriodic P labels = .ok Q) :
+    (∀ j, finalLead P labels (finalLead P labels j) = finalLead P labels j) ∧
+    (∀ j, j < P.n → finalLead P labels j < P.n) ∧
+    Q.l = (mergeProblem P (finalLead P labels) (mergeAll P labels).l (mergeAll P labels).u).l ∧
+    Q.u = (mergeProblem P (finalLead P labels) (mergeAll P labels).l (mergeAll P labels).u).u ∧
+    Q.mapping = (mergeProblem P (finalLead P labels) (mergeAll P labels).l (mergeAll P labels).u).mapping ∧
+    Q.name = P.name ∧ Q.nodes = P.nodes ∧
+    (∀ z, costAt Q.c 0 z
+      = costAt (mergeProblem P (finalLead P labels) (mergeAll P labels).l (mergeAll P labels).u).c 0 z) ∧
+    Q.rows.length = (mergeProblem P (finalLead P labels) (mergeAll P labels).l (mergeAll P labels).u).rows.length ∧
+    ∀ (i : Nat) (r r' : Row), Q.rows[i]? = some r →
+      (mergeProblem P (finalLead P labels) (mergeAll P labels).l (mergeAll P labels).u).rows[i]? = some r' →
+      (∀ z, r.eval z = r'.eval z) ∧ r.rhs = r'.rhs ∧ r.kind = r'.kind :=
+  makePeriodic_is_merge_aux P labels Q hlen hcols hpart h
+
+/-- the partition hypothesis is decidable on the input: the executable `partitionCheck` (reported by the driver
+    for every case) implies it -/
+theorem partition_of_partitionCheck (M : List MapRow) (labels : List (Nat × Nat × Nat))
+    (h : partitionCheck M labels = true) : Partition M labels :=
+  partition_of_check M labels h
+
+/-- **C13 for what `makePeriodic` returns** (`merge_columns` applied through `makePeriodic_is_merge`): the
+    periodic problem `Q` is the original problem with each variable's bounds replaced by the (averaged) bounds of
+    its leader plus the equalities `x_j = x_(lead j)` — feasibility, objective and dispatch read-out agree at
+    `z` and its expansion `z ∘ σ`, and every point satisfying the equalities is such an expansion. -/
+theorem makePeriodic_equiv (P : AssetProblem) (labels : List (Nat × Nat × Nat)) (Q : AssetProblem)
+    (hlen : P.c.length = P.l.length) (hcols : ∀ r ∈ P.rows, ∀ p ∈ r.coeffs, p.1 < P.l.length)
+    (hpart : Partition P.mapping labels) (h : makePeriodic P labels = .ok Q) :
+    (∀ z : Vec,
+        Equalities (finalLead P labels) P.n (fun j => z (sigmaOf (finalLead P labels) P.n j)) ∧
+        (Q.FeasibleRelaxed z ↔
+          GroupBounds (finalLead P labels) P.n (mergeAll P labels).l (mergeAll P labels).u
+              (fun j => z (sigmaOf (finalLead P labels) P.n j)) ∧
+            ∀ r ∈ P.rows, r.Sat (fun j => z (sigmaOf (finalLead P labels) P.n j))) ∧
+        costAt Q.c 0 z = costAt P.c 0 (fun j => z (sigmaOf (finalLead P labels) P.n j)) ∧
+        ∀ a n t, dispatchOut Q.mapping a n t z
+          = dispatchOut P.mapping a n t (fun j => z (sigmaOf (finalLead P labels) P.n j))) ∧
+    (∀ x : Vec, Equalities (finalLead P labels) P.n x →
+      ∃ z : Vec, ∀ j, j < P.n → x j = z (sigmaOf (finalLead P labels) P.n j)) := by
+  obtain ⟨hidem, hclosed, hl, hu, hm, _, _, hc, hrl, hrows⟩ := makePeriodic_is_merge P labels Q hlen hcols hpart h
+  obtain ⟨hmc, hsurj⟩ := merge_columns P (finalLead P labels) (mergeAll P labels).l (mergeAll P labels).u hidem hclosed
+  refine ⟨fun z => ?_, hsurj⟩
+  obtain ⟨h1, h2, h3, h4⟩ := hmc z
+  refine ⟨h1, ?_, ?_, ?_⟩
+  · rw [← h2]
+    unfold AssetProblem.FeasibleRelaxed
+    rw [hl, hu, rows_sat_of_rel Q.rows _ hrl hrows z]
+  · rw [hc z, h3]
+  · intro a n t; rw [hm, h4]
+
+/-- four hourly variables, one row each, a period of two steps: positions repeat, `0 ~ 2`, `1 ~ 3` -/
+def per4 : AssetProblem :=
+  { name := "a", nodes := ["n"], c := [1, 2, 3, 4], l := [-1, -1, -3, -1], u := [1, 1, 1, 3],
+    rows := [{ coeffs := [(0, 1), (1, 1), (2, 1), (3, 1)], rhs := 3, kind := .U }],
+    mapping := (List.range 4).map fun t =>
+      { var := t, asset := "a", node := some "n", kind := .d, step := t, factor := 1, isBool := false, varName := "disp" } }
+
+/-- non-vacuity of `makePeriodic_is_merge` / `makePeriodic_equiv`: the hypotheses hold for `per4` and the result has
+    two variables with summed costs `1+3`, `2+4` and averaged bounds -/
+example :
+    per4.c.length = per4.l.length ∧ (∀ r ∈ per4.rows, ∀ p ∈ r.coeffs, p.1 < per4.l.length) ∧
+    Partition per4.mapping [(1,1,0),(1,1,1),(1,2,0),(1,2,1)] ∧
+    ((makePeriodic per4 [(1,1,0),(1,1,1),(1,2,0),(1,2,1)]).toOption.map fun Q => (Q.c, Q.l, Q.u, Q.mapping.map (·.var)))
+      = some ([4, 6], [-2, -1], [1, 2], [0, 1, 0, 1]) := by
+  refine ⟨rfl, by decide +kernel, partition_of_single_rows _ _ (by decide +kernel), by decide +kernel⟩
+
+/-- a transport (one variable per step, rows at both nodes) with a period of two steps satisfies the partition
+    hypothesis although every variable lies in two groups -/
+example :
+    partitionCheck ((List.range 4).flatMap fun t =>
+        [({ var := t, asset := "t", node := some "n1", kind := .d, step := t, factor := -1, isBool := false, varName := "disp" } : MapRow),
+         { var := t, asset := "t", node := some "n2", kind := .d, step := t, factor := 1/2, isBool := false, varName := "disp" }])
+      [(1,1,0),(1,1,1),(1,2,0),(1,2,1)] = true := by
+  decide +kernel
 
 /-- **C13 `periodic_groups` (soundness).**  If `makePeriodic` merges variable `v` into `w ≠ v`, then `v`
     and `w` have mapping rows with the same asset, the same node (not NaN), type, variable name, duration
